@@ -2,6 +2,7 @@
 Three observations per input b: `crc b` (model of tsutils.go vs real), `crc.spec b` (textbook register of
 Spec/Crc32.v vs real), `crc.residue b` (ComputeCRC(b ++ ComputeCRC(b)), must be 00000000); every real reply is
 additionally compared with an independent table-driven CRC-32/MPEG-2 written here."""
+import vlib
 from vlib import Case, hx, unhx
 
 PROP = "C13"
@@ -40,9 +41,29 @@ def single(length, bitpos):
     return bytes(b)
 
 
+TRUSTED_EXTRA = []
+AUDIT = {}
+
+
+def coqchk_audit():
+    """thorough tier (DESIGN section 4): coqchk -silent -o on this property's compiled theorems; the context summary goes
+    into the evidence; anything but 'Axioms: <none>' becomes a failing case of kind coqchk-audit"""
+    rc, out = vlib.sh("timeout 1500 coqchk -silent -o -Q theories Gots Gots.Properties.C13", cwd=vlib.COQ, timeout=1600)
+    i = out.find("CONTEXT SUMMARY")
+    summary = " ".join(out[i:].split()) if i >= 0 else out[-500:]
+    ok = (rc == 0 and "* Axioms: <none>" in out and "type-in-type: <none>" in out
+          and "unsafe (co)fixpoints: <none>" in out and "positivity is assumed: <none>" in out)
+    del TRUSTED_EXTRA[:]
+    TRUSTED_EXTRA.append("coqchk -silent -o Gots.Properties.C13 (this run): " + summary)
+    AUDIT["ok"], AUDIT["text"] = ok, summary
+    return ok
+
+
 def gen(rng, tier):
     out = []
     thorough = tier == "thorough"
+    if thorough and not coqchk_audit():
+        out.append(Case("crc.audit x", kind="coqchk-audit", theorem="C13_compute_crc_is_mpeg2"))
     def crc(b, kind, th="C13_compute_crc_is_mpeg2"):
         out.append(Case("crc " + hx(b), kind=kind, theorem=th))
     # 1. lengths 0..2 complete
@@ -111,6 +132,8 @@ def gen(rng, tier):
 
 def oracle(c, real, model):
     """the property fixes the reply completely, so the real reply is also checked against the table-driven CRC"""
+    if c.kind == "coqchk-audit":
+        return "coqchk does not confirm the proofs of Properties/C13.v as axiom-free: " + AUDIT.get("text", "")
     op, _, arg = c.line.partition(" ")
     try:
         data = unhx(arg.strip())
